@@ -206,7 +206,12 @@ func FmtRandom(rng *rand.Rand, id int) *FmtCase {
 			pat += on
 			c.Outs[on] = pat
 		}
-		toks = append(toks, ">"+"{"+typ+":"+on+ext+"}")
+		omods := ""
+		if typ == "o" && rng.Intn(5) == 0 {
+			// path modifiers on an out-port placeholder (a tool that takes an output prefix or an output directory)
+			omods = []string{"|basename", "|dirname", "|s/o_/O_/", "|%.x"}[rng.Intn(4)]
+		}
+		toks = append(toks, ">"+"{"+typ+":"+on+ext+omods+"}")
 	}
 	if rng.Intn(5) == 0 {
 		c.Prepend = "srun -n 1"
